@@ -95,7 +95,7 @@ Definition dcheck (tol : Q) (c : dcase) : bool * Z :=
   let ms := map (model_entry c) (d_ents c) in
   let st_ok := forallb snd ms in
   match d_impl c with
-  | None => (forallb (fun m => match fst m with None => true | Some _ => false end) ms && negb (Nat.eqb (length ms) 0), 0%Z)
+  | None => (forallb (fun m => match fst m with None => true | Some _ => false end) ms && negb (Nat.eqb (length ms) 0), (-1074)%Z)
   | Some vals =>
     match all_somes (map fst ms) with
     | None => (false, 1%Z)
